@@ -620,9 +620,11 @@ enum Y {
     Plain,
     Until(u64),
     Cancel,
-    SysPlain,
-    SysUntil(u64),
-    SysCancel,
+    // yields made while the coroutine is inside a system call; the second field is the call's state at the yield:
+    // 0 Executing, 1 Suspend(ts), 2 Timeout, 3 Callback (2 and 3: a call that was woken and waits again before it goes back to Executing)
+    SysPlain(u8),
+    SysUntil(u64, u8),
+    SysCancel(u8),
 }
 
 fn c09_case(seed: u64, case: u64) -> (Verdict, String, String, bool, String, J, J) {
@@ -637,18 +639,18 @@ fn c09_case(seed: u64, case: u64) -> (Verdict, String, String, bool, String, J, 
             let y = match rng.below(10) {
                 0..=3 => Y::Plain,
                 4..=5 => Y::Until(now() + rng.range(1, 50) * 1_000_000_000),
-                6 => Y::SysPlain,
-                7..=8 => Y::SysUntil(now() + rng.range(1, 50) * 1_000_000_000),
+                6 => Y::SysPlain(rng.below(4) as u8),
+                7..=8 => Y::SysUntil(now() + rng.range(1, 50) * 1_000_000_000, rng.below(4) as u8),
                 _ => {
                     if rng.chance(1, 2) {
                         Y::Cancel
                     } else {
-                        Y::SysCancel
+                        Y::SysCancel(rng.below(4) as u8)
                     }
                 }
             };
             v.push(y);
-            if matches!(y, Y::Cancel | Y::SysCancel) {
+            if matches!(y, Y::Cancel | Y::SysCancel(_)) {
                 break;
             }
         }
@@ -666,15 +668,22 @@ fn c09_case(seed: u64, case: u64) -> (Verdict, String, String, bool, String, J, 
                             Y::Plain => s.suspend(),
                             Y::Until(ts) => s.until(ts),
                             Y::Cancel => s.cancel(),
-                            Y::SysPlain | Y::SysUntil(_) | Y::SysCancel => {
+                            Y::SysPlain(st) | Y::SysUntil(_, st) | Y::SysCancel(st) => {
                                 let co = SchedulableCoroutine::current().expect("current");
                                 co.syscall((), SyscallName::read, SyscallState::Executing).expect("enter");
+                                if st >= 1 {
+                                    co.syscall((), SyscallName::read, SyscallState::Suspend(u64::MAX)).expect("park");
+                                }
+                                if st >= 2 {
+                                    co.syscall((), SyscallName::read, if st == 2 { SyscallState::Timeout } else { SyscallState::Callback }).expect("woken");
+                                }
                                 match *y {
-                                    Y::SysPlain => s.suspend(),
-                                    Y::SysUntil(ts) => s.until(ts),
+                                    Y::SysPlain(_) => s.suspend(),
+                                    Y::SysUntil(ts, _) => s.until(ts),
                                     _ => s.cancel(),
                                 }
                                 let co = SchedulableCoroutine::current().expect("current");
+                                co.syscall((), SyscallName::read, SyscallState::Executing).expect("back in the call");
                                 co.running().expect("leave");
                             }
                         }
@@ -704,6 +713,10 @@ fn c09_case(seed: u64, case: u64) -> (Verdict, String, String, bool, String, J, 
         pos[i] += 1;
         // a coroutine suspended with a future timestamp cannot be resumed directly; mimic the scheduler by
         // only resuming from Ready / Syscall(Executing): after Until we stop driving that coroutine
+        // what the scheduler does before it resumes a coroutine that is parked in a call
+        if let CoroutineState::Syscall((), n, SyscallState::Suspend(_)) = cos[i].state() {
+            cos[i].syscall((), n, SyscallState::Callback).expect("callback");
+        }
         let r = cos[i].resume();
         trace.push(format!("co{i}:{y:?}"));
         let got = r.as_ref().map(st_str).unwrap_or_else(|e| format!("Err({e})"));
@@ -711,10 +724,13 @@ fn c09_case(seed: u64, case: u64) -> (Verdict, String, String, bool, String, J, 
             (Y::Plain, Ok(CoroutineState::Suspend((), 0))) => true,
             (Y::Until(ts), Ok(CoroutineState::Suspend((), t))) => *t == ts,
             (Y::Cancel, Ok(CoroutineState::Cancelled)) => true,
-            (Y::SysPlain | Y::SysUntil(_) | Y::SysCancel, Ok(CoroutineState::Syscall((), SyscallName::read, SyscallState::Executing))) => true,
+            (Y::SysPlain(st) | Y::SysUntil(_, st) | Y::SysCancel(st), Ok(CoroutineState::Syscall((), SyscallName::read, got))) => matches!(
+                (st, got),
+                (0, SyscallState::Executing) | (1, SyscallState::Suspend(u64::MAX)) | (2, SyscallState::Timeout) | (3, SyscallState::Callback)
+            ),
             _ => false,
         };
-        if matches!(prev_kind, Some(Y::SysUntil(_) | Y::SysCancel)) {
+        if matches!(prev_kind, Some(Y::SysUntil(..) | Y::SysCancel(_))) {
             after_sys_request += 1;
         }
         if !ok {
@@ -726,8 +742,10 @@ fn c09_case(seed: u64, case: u64) -> (Verdict, String, String, bool, String, J, 
                 _ => "yield-misreported",
             };
             let ctx = match prev_kind {
-                Some(Y::SysUntil(_)) => "/after-syscall-state-delay-request",
-                Some(Y::SysCancel) => "/after-syscall-state-cancel-request",
+                Some(Y::SysUntil(_, 0 | 1)) => "/after-syscall-state-delay-request",
+                Some(Y::SysCancel(0 | 1)) => "/after-syscall-state-cancel-request",
+                Some(Y::SysUntil(..)) => "/after-delay-request-of-a-call-that-had-been-woken",
+                Some(Y::SysCancel(_)) => "/after-cancel-request-of-a-call-that-had-been-woken",
                 _ => "",
             };
             viol = Some((format!("{kind}{ctx}"), format!("co{i} yielded {y:?} but resume reported {got}; previous yield on this thread was {prev_kind:?}")));
@@ -735,10 +753,10 @@ fn c09_case(seed: u64, case: u64) -> (Verdict, String, String, bool, String, J, 
         }
         prev_kind = Some(y);
         match y {
-            Y::Until(_) | Y::Cancel | Y::SysCancel | Y::SysUntil(_) | Y::SysPlain => alive[i] = matches!(y, Y::SysPlain | Y::SysUntil(_)),
+            Y::Until(_) | Y::Cancel | Y::SysCancel(_) | Y::SysUntil(..) | Y::SysPlain(_) => alive[i] = matches!(y, Y::SysPlain(_) | Y::SysUntil(..)),
             Y::Plain => {}
         }
-        if matches!(y, Y::SysCancel) {
+        if matches!(y, Y::SysCancel(_)) {
             alive[i] = false; // it asked to be cancelled while in a call; do not drive it further
         }
     }
